@@ -18,11 +18,14 @@ var c13NumKeys = []string{"0", "1", "2", "-1", "10"}
 var c13StrKeys = []string{`"a"`, `""`, `"b"`, `"B"`, `"é"`}
 var c13NumSpell = []string{"1", "1.0", "1e0", "2", "10e-1", "2.0"}
 var c13BigKeys = []string{"9007199254740992", "9007199254740993", "9007199254740994", "12345678901234567890", "12345678901234567891", "0.1", "0.10000000000000001", "1e30", "-9007199254740993"}
+
+// strings that are prefixes of each other, also with trailing U+0000 and with a first difference after 8 and 16 bytes
+var c13PrefixKeys = []string{`"ab"`, `"ab\u0000"`, `"ab\u0000\u0000"`, `"a"`, `"b"`, `"abcdefgh"`, `"abcdefgh\u0000"`, `"abcdefghi"`, `"abcdefgha"`, `"abcdefghabcdefghx"`, `"abcdefghabcdefghy"`, `""`}
 var c13Spell = []string{"1", "1.0", "1e0", "2", `"a"`, `"b"`, `"é"`, `"😀"`, "null", "[1]"}
 
 // an op is a function, optionally followed by "/" and the expression that delivers the array (default: the document itself)
 var c13Ops = []string{"sort_by", "min_by", "max_by", "sort", "min", "max", "sort_by_self",
-	"sort_by/x[*]", "sort/x[*]", "sort_by_self/x[*]", "max_by/x[*]", "min/x[*]", "sort_by/(x)", "sort/x || z", "sort_by/x[:]", "sort/x[?`true`]", "sort_by/[x][0]", "sort/not_null(y, x)", "sort_by_nested"}
+	"sort_by/x[*]", "sort/x[*]", "sort_by_self/x[*]", "max_by/x[*]", "min/x[*]", "sort_by/(x)", "sort/x || z", "sort_by/x[:]", "sort/x[?`true`]", "sort_by/[x][0]", "sort/not_null(y, x)", "sort_by_nested", "sort_by[-1]", "sort_by[0]", "sort_by[1]", "sort[-1]", "sort_by_paren[-1]"}
 
 func init() {
 	core.Register(&core.Check{
@@ -55,6 +58,8 @@ func (c c13Case) keyText(i int) string {
 		return c13BigKeys[c.Keys[i]]
 	case "numspell":
 		return c13NumSpell[c.Keys[i]]
+	case "prefix":
+		return c13PrefixKeys[c.Keys[i]]
 	}
 	return c13Spell[c.Keys[i]]
 }
@@ -130,6 +135,12 @@ func c13Check(r *core.Run, c c13Case, op string) *core.Violation {
 	if i := strings.Index(op, "/"); i >= 0 {
 		op, route = full[:i], full[i+1:]
 	}
+	index := ""
+	if i := strings.Index(op, "["); i >= 0 {
+		op, index = op[:i], op[i:]
+	}
+	paren := strings.HasSuffix(op, "_paren")
+	op = strings.TrimSuffix(op, "_paren")
 	switch op {
 	case "sort_by", "min_by", "max_by":
 		expr, input = op+"(@, &k)", objs
@@ -157,6 +168,13 @@ func c13Check(r *core.Run, c c13Case, op string) *core.Violation {
 		}
 		expr = strings.Replace(expr, "@", route, 1)
 		document = map[string]any{"x": input, "z": input}
+	}
+	if index != "" {
+		// an index straight after the call selects from the sorted array: [-1] is the LAST of the stable order
+		if paren {
+			expr = "(" + expr + ")"
+		}
+		expr += index
 	}
 	snapshot := core.Canon(core.Norm(input[:n+3]))
 	o := core.Search(expr, document)
@@ -187,6 +205,32 @@ func c13Check(r *core.Run, c c13Case, op string) *core.Violation {
 		idx[i] = i
 	}
 	sort.SliceStable(idx, func(a, b int) bool { return c13Less(keys[idx[a]], keys[idx[b]]) })
+	if index != "" {
+		var k int
+		fmt.Sscanf(index, "[%d]", &k)
+		if k < 0 {
+			k += n
+		}
+		var want any
+		if k >= 0 && k < n {
+			if op == "sort" {
+				want = keys[idx[k]]
+			} else {
+				want = core.Norm(objs[idx[k]])
+			}
+		}
+		if op == "sort" {
+			// equal-valued spellings may come in any order: compare by value
+			if !core.EqualFast(o.Val, want) {
+				return mk("wrong-element", "the element at "+index+" of the sorted array: "+core.Canon(want))
+			}
+			return nil
+		}
+		if !core.EqualFast(o.Val, want) {
+			return mk("wrong-element", "the element at "+index+" of the stable order: "+core.Canon(want))
+		}
+		return nil
+	}
 	switch op {
 	case "sort_by_self":
 		// stable by value: the spellings of equal-valued numbers keep their input order
@@ -339,6 +383,7 @@ func c13Enumerate(thorough bool, f func(c13Case)) {
 	// numbers that differ below the resolution of binary64
 	rec("big", len(c13BigKeys), 3, nil)
 	rec("numspell", len(c13NumSpell), 4, nil)
+	rec("prefix", len(c13PrefixKeys), 3, nil)
 	// long arrays: complete pattern families
 	for _, kind := range []string{"num", "str", "numspell"} {
 		for n := 13; n <= 64; n++ {
